@@ -183,8 +183,8 @@ def main(tier):
     ev.cov["rule"] = ("every shape with <= 3 directions, sides 0..3 top cells (0: vertex input only; periodic sides 2, 3), every "
                       "periodic mask, both classes (plain / periodic base), both input conventions; value assignments over "
                       "{0,1,2,+inf}: all of them up to %s inputs%s, seeded samples for larger shapes; per case every cell's "
-                      "dimension, value, boundary (faces as a multiset, documented incidences, alternation with one sign per "
-                      "dimension), coboundary (set), the ranges, the filtration order (exact) and the persistence diagram + "
+                      "dimension, value, boundary (faces as a multiset, documented incidences, their alternation along the "
+                      "list, dd = 0 with the alternating signs), coboundary (set), the ranges, the filtration order (exact) and the persistence diagram + "
                       "Betti numbers over each prime with and without persistence_dim_max, expected values computed by TLC "
                       "from Cubical.tla / Persistence.tla; plus recorded random complexes (<= 4 directions, sides <= 5, <= %d "
                       "cells) accepted by Trace_Cubical.tla.  distinct = valued cases with >= 2 distinct input values or a "
@@ -194,9 +194,9 @@ def main(tier):
         "the handle of a cell is its bitmap position (part of the API); input lists in Fortran order (first direction fastest)",
         "periodic sides >= 2 (a periodic side of 1 identifies the two faces of a cell: excluded); a side of 0 top cells only "
         "with vertex input",
-        "order of the boundary list: only what is documented is required (faces each once, documented incidences alternate "
-        "along the list, same first sign for all cells of a dimension); the order of the pinned tree is recorded as a "
-        "statistic (boundary_lists_in_spec_order); coboundary compared as a set",
+        "order of the boundary list: only what is documented / stated is required (faces each once, the documented incidences "
+        "alternate along the list, the lists with alternating signs compose to zero); the order of the pinned tree is "
+        "recorded as a statistic (boundary_lists_in_spec_order); coboundary compared as a set",
         "diagram compared as a multiset of (dimension, birth value, death value); a finite pair is reported iff death value "
         "> birth value (+inf is not > +inf), an essential class always; cell pairings are not compared",
         "values are small integers or +inf (exact in double); -inf and NaN inputs are not explored",
